@@ -128,12 +128,12 @@ def gen_pair(rng, ndim=None):
             for k in range(size):
                 if rng.random() < 0.2:
                     mk.flat[k] = True
-        if mode == 'single':
-            mk.flat[rng.randrange(1, size - 1)] = True
+        if mode in ('single', 'interior'):
+            mk.flat[rng.randrange(1, size - 1)] = True      # 'interior': an interior entry only, both corners stay unmasked
         return mk
     for _ in range(20):
-        dmask = rmask(rng.choice(['none', 'corners', 'random', 'single']))
-        mmask = rmask(rng.choice(['none', 'corners', 'random', 'single']))
+        dmask = rmask(rng.choice(['none', 'corners', 'random', 'single', 'interior']))
+        mmask = rmask(rng.choice(['none', 'corners', 'random', 'single', 'interior']))
         model.mask = mmask
         data.mask = dmask
         fd = rng.random() < 0.35
@@ -208,6 +208,90 @@ def make_record(rid, op, model, data, lvl=None):
     return {'id': rid, 'op': op, 'site': SITE[op], 'in': inp, 'tab': tables(mo, da, WANT[op]), 'out': call(op, model, data, lvl)}
 
 
+# ---------------------------------------------------------------- histories on the same objects (in-place edits)
+HIST_OPS = ('ll', 'll_per_bin', 'll_multinom', 'theta')
+
+
+def _editable(fs):
+    """flat indices that may be edited in place: a folded spectrum keeps its folded-out entries masked, and its two
+    corner entries stay as they are (dadi's fold() masks them by default, which the specification allows)"""
+    sh = fs.shape
+    n = sum(x - 1 for x in sh)
+    return [k for k in range(fs.size) if not (fs.folded and (2 * sum(_unflat(sh, k)) > n or k in (0, fs.size - 1)))]
+
+
+def choose_edit(rng, fs, target):
+    """An in-place modification of a real Spectrum: mask an unmasked entry, unmask a masked one, change a value
+    (through the .data view or through item assignment), set one to zero."""
+    idx = _editable(fs)
+    mask = np.ma.getmaskarray(fs)
+    un = [k for k in idx if not mask.flat[k]]
+    ma = [k for k in idx if mask.flat[k]]
+    kinds = ['value', 'setitem'] + (['mask'] if len(un) > 2 else []) + (['unmask'] if ma else []) + (['zero'] if target == 'data' and len(un) > 2 else [])
+    kind = rng.choice(kinds)
+    if kind == 'unmask':
+        k = rng.choice(ma)
+    else:
+        k = rng.choice(un) if un else rng.choice(idx)
+    old = float(fs.data.flat[k])
+    if target == 'data':
+        v = float(rng.choice([rng.randrange(1, 50), rng.randrange(1, 50), round(rng.uniform(0.1, 30), 3)]))
+    else:
+        v = (abs(old) if old != 0 else 1.0) * rng.choice([0.25, 0.5, 2.0, 3.5])
+    return {'target': target, 'kind': kind, 'k': int(k), 'v': rat(0.0 if kind == 'zero' else v)}
+
+
+def apply_edit(fs, edit):
+    """Modify fs IN PLACE (same object before and after)."""
+    ix = _unflat(fs.shape, edit['k'])
+    kind = edit['kind']
+    if kind == 'mask':
+        fs.mask[ix] = True
+    elif kind == 'unmask':
+        fs.mask[ix] = False
+    elif kind == 'value':
+        fs.data[ix] = float(Fraction(edit['v']))
+    else:                       # 'setitem', 'zero': item assignment (also unmasks a masked entry)
+        fs[ix] = float(Fraction(edit['v']))
+
+
+def in_domain(model, data):
+    e = model.fold() if (data.folded and not model.folded) else model
+    jm = ~np.ma.getmaskarray(e) & ~np.ma.getmaskarray(data)
+    pos = jm & (np.asarray(e.data) > 0)
+    return pos.sum() >= 1 and float(np.asarray(data.data)[jm].sum()) > 0 and float(np.asarray(e.data)[jm].sum()) > 0
+
+
+def history_records(rng, nid, model, data, nsteps):
+    """evaluate, edit one of the two objects in place, evaluate again - the records carry the MODIFIED objects as
+    their input, so the ordinary clauses judge the second evaluation; 'hist' keeps what is needed to replay the step."""
+    from dadi import Inference
+    recs = []
+    for step in range(nsteps):
+        target = 'data' if step % 3 != 2 else 'model'
+        obj = data if target == 'data' else model
+        before = {'mo': enc(model), 'da': enc(data)}
+        edit = choose_edit(rng, obj, target)
+        for op in HIST_OPS:                    # first evaluation on the objects as they are
+            call(op, model, data)
+        saved = (np.array(obj.data, copy=True), np.array(np.ma.getmaskarray(obj), copy=True))
+        apply_edit(obj, edit)
+        if not in_domain(model, data):
+            obj.data[...] = saved[0]           # leave the domain of the property: undo (still in place) and go on
+            obj.mask[...] = saved[1]
+            continue
+        try:
+            batch = []
+            for op in HIST_OPS:
+                r = make_record('hist-%s-%d' % (op, next(nid)), op, model, data)
+                r['in']['hist'] = {'before': before, 'edit': edit}
+                batch.append(r)
+            recs.extend(batch)
+        except ZeroJointData:
+            pass
+    return recs
+
+
 def records(ctx):
     import dadi
     from dadi import Inference
@@ -261,6 +345,9 @@ def records(ctx):
             out = {'raised': type(e).__name__}
         recs.append({'id': 'maximises-%d' % next(nid), 'op': 'maximises', 'site': SITE['maximises'],
                      'in': {'mo': enc(other), 'da': enc(data)}, 'tab': {}, 'out': out})
+        # call histories on the same two objects: likelihoods may not remember anything about an earlier state of them
+        if c % 2 == 0:
+            recs.extend(history_records(rng, nid, model, data, 3))
     return recs
 
 
@@ -306,7 +393,8 @@ def nontrivial(r):
     i = r['in']
     mo, da = i['mo'], i['da']
     d = [Fraction(x) for x in da['d']]
-    return (r['op'], len(mo['sh']), da['f'], mo['f'], mo['m'] != da['m'],
+    hist = i.get('hist')
+    return (r['op'], (hist['edit']['target'], hist['edit']['kind']) if hist else None, len(mo['sh']), da['f'], mo['f'], mo['m'] != da['m'],
             any(x.denominator != 1 for x in d), any(x == 0 and not m for x, m in zip(d, da['m'])), i.get('lvl', '') not in ('', 'none'))
 
 
@@ -344,6 +432,16 @@ def reexecute(rec):
     op = rec['op']
     if op in ('scale_inv', 'maximises'):
         return rec          # relational records are re-validated as recorded
+    hist = rec['in'].get('hist')
+    if hist:
+        # the step as it happened: evaluate on the objects before the edit, edit in place, evaluate again
+        model, data = dec(hist['before']['mo']), dec(hist['before']['da'])
+        for o in HIST_OPS:
+            call(o, model, data)
+        apply_edit(data if hist['edit']['target'] == 'data' else model, hist['edit'])
+        new = make_record(rec['id'], op, model, data)
+        new['in']['hist'] = hist
+        return new
     model, data = dec(rec['in']['mo']), dec(rec['in']['da'])
     lvl = rec['in'].get('lvl', 'none')
     lvl = None if lvl == 'none' else float(Fraction(lvl))
